@@ -31,7 +31,7 @@ SIZE_PATTERNS = {
 
 def case(n, edges, **kw):
     c = dict(g=0, rel="", n=n, edges=[list(e) for e in edges], p1="greedy", p2="ns", p3="", p4="sink", p5="poly",
-             ns=2, ls=4, fixed=[], smap=[], virt=0, thor=-1, seed=0, mon=0, sc=0, ex=0, after=0, bad=0, dup=0)
+             ns=2, ls=4, fixed=[], smap=[], virt=0, thor=-1, seed=0, mon=0, sc=0, ex=0, after=0, bad=0, dup=0, sden=0)
     c.update(kw)
     return c
 
